@@ -538,8 +538,8 @@ func TestVerifC14(t *testing.T) {
 		if sz >= 1<<20 {
 			ll = 900 + sz%7
 		}
-		if sz > 32<<20 && s.Tier != "thorough" {
-			ll = 4000 + sz%7 // the one large list of the quick tier: fewer, longer rules
+		if sz >= 32<<20-1 {
+			ll = 4000 + sz%7 // the largest lists: fewer, longer rules (one write call and one element of the case per rule)
 		}
 		body, lines := c14Numbered(sz, ll)
 		serve(path(f), answer{raw: body})
@@ -555,7 +555,15 @@ func TestVerifC14(t *testing.T) {
 				c.Want(body)
 			}
 			c.Kind = "update"
+			// a download size limit that REFUSES a large list (error, previous
+			// version kept) is within the property; one that stores part of it is not
+			c.MayFail = sz > 32<<20
 			ok, err := c.SaveB("update-exact", false, func() (bool, error) { return d.update(f) })
+			if err != nil && !ok && sz > 32<<20 {
+				c.Class("large-list-refused")
+				c.Info["refused"] = err.Error()
+				return
+			}
 			if !ok || err != nil {
 				c.Fail("refresh with a list of %d bytes (%d rules): updated=%v err=%v", sz, lines, ok, err)
 				return
